@@ -165,6 +165,24 @@ func FuzzC04(f *testing.F) {
 	}))
 }
 
+// FuzzC08 drives the FOR program generator from the fuzzer's bytes: coverage
+// of the expander guides the search towards rare arrangements of blocks.
+func FuzzC08(f *testing.F) {
+	f.Fuzz(rapid.MakeFuzz(func(t *rapid.T) {
+		c := genForCase(t)
+		var msg string
+		if pm := hx.Safely(func() { msg = judgeForCase(c, nil) }); pm != "" {
+			msg = pm
+		}
+		if msg != "" {
+			if os.Getenv("VERIF_FUZZ_EXPORT") != "" {
+				hx.WriteFailure("C08", "for", msg, c)
+			}
+			t.Fatalf("%s", msg)
+		}
+	}))
+}
+
 // replay of exported fuzz failures (sub "fuzz")
 func replayFuzz(t *testing.T, id string, judge func(fuzzCase) string) {
 	rp := hx.ReplayPath()
